@@ -817,10 +817,15 @@ func bcPropOfKey(key string) string {
 func runBrokerCore(t *testing.T, prop string) {
 	r := vh.Start(prop)
 	defer r.Finish()
-	if (prop == "C04" || prop == "C02") && !vh.Serial() {
-		scDone := make(chan struct{})
-		go func() { runBrokerScenarios(t, r, prop); close(scDone) }()
-		defer func() { <-scDone }()
+	if prop == "C04" || prop == "C02" || prop == "C03" {
+		if vh.Serial() {
+			// crash attribution: the scenarios one after the other, journalled like the histories
+			defer runBrokerScenarios(t, r, prop)
+		} else {
+			scDone := make(chan struct{})
+			go func() { runBrokerScenarios(t, r, prop); close(scDone) }()
+			defer func() { <-scDone }()
+		}
 	}
 	nQuiet := r.N(120, 1200)
 	nStag := r.N(40, 300)
@@ -994,7 +999,124 @@ func bcSilentProxyAndSpare(t *testing.T, inst *bcInst) string {
 	return desc
 }
 
+// many proxies of one class waiting at once (far more than the generated histories use): the pools stay apart
+func bcManyWaiting(t *testing.T, inst *bcInst) string {
+	const nR, nU = 300, 4
+	var polls []*bcReq
+	for i := 0; i < nR; i++ {
+		p := &bcReq{kind: 'P', id: 1000 + i, wireNat: "restricted", nat: "restricted", clients: i % 5}
+		polls = append(polls, p)
+		inst.start(p)
+	}
+	for i := 0; i < nU; i++ {
+		p := &bcReq{kind: 'P', id: 2000 + i, wireNat: "unrestricted", nat: "unrestricted", clients: i}
+		polls = append(polls, p)
+		inst.start(p)
+	}
+	bcWait(func() bool { hu, hr, _, _ := inst.counts(); return hu+hr == nR+nU }, 8*time.Second)
+	var clients []*bcReq
+	for i := 0; i < nU+1; i++ { // restricted clients need unrestricted proxies: nU are matched, one more is denied
+		c := &bcReq{kind: 'C', id: 3000 + i, wireNat: "restricted", nat: "restricted"}
+		clients = append(clients, c)
+		inst.start(c)
+		time.Sleep(30 * time.Millisecond)
+	}
+	for i := 0; i < 3; i++ { // unrestricted clients are served from the restricted pool
+		c := &bcReq{kind: 'C', id: 4000 + i, wireNat: "unrestricted", nat: "unrestricted"}
+		clients = append(clients, c)
+		inst.start(c)
+		time.Sleep(30 * time.Millisecond)
+	}
+	bcWait(func() bool { return !inst.anyPending() }, bcTimeout()+bcTimeout())
+	desc := fmt.Sprintf("%d restricted and %d unrestricted proxies waiting; %d restricted clients, then 3 unrestricted clients", nR, nU, nU+1)
+	byID := map[int]*bcReq{}
+	for _, c := range clients {
+		byID[c.id] = c
+	}
+	denied := 0
+	for _, c := range clients {
+		if c.outcome == "denied" {
+			denied++
+		}
+	}
+	for _, p := range polls {
+		if p.offerOf != 0 {
+			if c := byID[p.offerOf]; c != nil && c.nat != "unrestricted" && p.nat != "unrestricted" {
+				desc += fmt.Sprintf(" NAT-INCOMPATIBLE: client %d (%s) was matched with proxy %d (%s)", c.id, c.nat, p.id, p.nat)
+			}
+		}
+	}
+	if denied != 1 {
+		desc += fmt.Sprintf(" WRONG-DENIALS: %d clients denied, exactly the fifth restricted client should be", denied)
+	}
+	return desc
+}
+
+// the same session id polls again with another NAT type while other proxies wait: nobody else loses its place
+func bcSameSidOtherNat(t *testing.T, inst *bcInst) string {
+	// the re-polling proxy registers first and reports no clients, so it sits at the root of its pool
+	x1 := &bcReq{kind: 'P', id: 20, wireNat: "restricted", nat: "restricted", sidText: "same-sid"}
+	inst.start(x1)
+	bcWait(func() bool { hu, hr, _, _ := inst.counts(); return hu+hr == 1 }, 5*time.Second)
+	for i, nat := range []string{"restricted", "restricted", "unrestricted", "unrestricted"} {
+		inst.start(&bcReq{kind: 'P', id: 10 + i, wireNat: nat, nat: nat, clients: 1 + i})
+		bcWait(func() bool { hu, hr, _, _ := inst.counts(); return hu+hr == 2+i }, 5*time.Second)
+	}
+	x2 := &bcReq{kind: 'P', id: 21, wireNat: "unrestricted", nat: "unrestricted", sidText: "same-sid"}
+	inst.start(x2)
+	bcWait(func() bool { hu, hr, _, _ := inst.counts(); return hu+hr == 6 }, 5*time.Second)
+	var cs []*bcReq
+	for i := 0; i < 3; i++ { // three unrestricted proxies wait (two old ones and the re-poll): three restricted clients are served
+		c := &bcReq{kind: 'C', id: 101 + i, wireNat: "restricted", nat: "restricted"}
+		cs = append(cs, c)
+		inst.start(c)
+		time.Sleep(50 * time.Millisecond)
+	}
+	bcWait(func() bool { return !inst.anyPending() }, bcTimeout()+bcTimeout())
+	desc := "2 restricted + 2 unrestricted proxies waiting; sid X polls restricted, then again unrestricted; then 3 restricted clients"
+	for _, c := range cs {
+		if c.outcome == "denied" {
+			desc += fmt.Sprintf(" DENIED-ALTHOUGH-ELIGIBLE: client %d was told no proxies while unrestricted proxies were waiting", c.id)
+		}
+	}
+	return desc
+}
+
+// NAT types spelled in other letter case: whatever the decoders make of them, a proxy and a client that both read as
+// restricted / unknown are never matched with each other
+func bcNatSpellings(t *testing.T, inst *bcInst) string {
+	fold := func(s string) string { return strings.ToLower(strings.Replace(s, "\u017f", "s", -1)) }
+	var ps, cs []*bcReq
+	for i, nat := range []string{"Restricted", "UNKNOWN", "re\u017ftricted", "Unrestricted"} {
+		p := &bcReq{kind: 'P', id: 10 + i, wireNat: nat, nat: fold(nat)}
+		ps = append(ps, p)
+		inst.start(p)
+	}
+	time.Sleep(300 * time.Millisecond)
+	for i, nat := range []string{"Restricted", "UNKNOWN", "restricted", "unknown", "Unrestricted"} {
+		c := &bcReq{kind: 'C', id: 101 + i, wireNat: nat, nat: fold(nat)}
+		cs = append(cs, c)
+		inst.start(c)
+		time.Sleep(50 * time.Millisecond)
+	}
+	bcWait(func() bool { return !inst.anyPending() }, bcTimeout()+bcTimeout())
+	desc := "polls with NAT spelled Restricted / UNKNOWN / re\u017ftricted / Unrestricted, clients spelled Restricted / UNKNOWN / restricted / unknown / Unrestricted"
+	byID := map[int]*bcReq{}
+	for _, c := range cs {
+		byID[c.id] = c
+	}
+	for _, p := range ps {
+		if c := byID[p.offerOf]; p.offerOf != 0 && c != nil && c.nat != "unrestricted" && p.nat != "unrestricted" {
+			desc += fmt.Sprintf(" NAT-INCOMPATIBLE: client %d (%q) was matched with proxy %d (%q)", c.id, c.wireNat, p.id, p.wireNat)
+		}
+	}
+	return desc
+}
+
 var bcScenarios = []bcScenario{
+	{"many-waiting-proxies", bcManyWaiting},
+	{"same-sid-repoll-with-other-nat", bcSameSidOtherNat},
+	{"nat-spellings", bcNatSpellings},
 	{"same-sid-repoll-while-matched/answered", bcSameSidRepoll(true)},
 	{"same-sid-repoll-while-matched/unanswered", bcSameSidRepoll(false)},
 	{"same-sid-two-idle-polls", bcSameSidTwoIdle},
@@ -1010,9 +1132,15 @@ func runBrokerScenarios(t *testing.T, r *vh.Run, prop string) {
 	out := make([]sres, len(bcScenarios))
 	for i, sc := range bcScenarios {
 		wg.Add(1)
+		if vh.Serial() {
+			wg.Wait() // one scenario at a time, so that the journal's last instance is the one that crashed
+			wg.Add(1)
+			wg.Done()
+		}
 		go func(i int, sc bcScenario) {
 			defer wg.Done()
 			inst := newBcInst(t, map[int]int{0: 100})
+			vh.Journal(fmt.Sprintf("broker-instance %p: scenario %s", inst, sc.name))
 			desc := sc.run(t, inst)
 			bcWait(func() bool { return !inst.anyPending() }, 3*time.Second)
 			out[i] = sres{desc, inst.summary(inst.anyPending()), inst}
@@ -1026,6 +1154,15 @@ func runBrokerScenarios(t *testing.T, r *vh.Run, prop string) {
 		if prop == "C02" {
 			if strings.Contains(o.desc, "OFFER-HANDED-TWICE") {
 				r.OracleFail("offer-handed-twice", line, o.real, "an offer is handed to at most one poll, however long that proxy stays silent")
+			}
+			continue
+		}
+		if prop == "C03" {
+			if strings.Contains(o.desc, "NAT-INCOMPATIBLE") {
+				r.OracleFail("nat-incompatible-match", line, trunc1k(o.real), "a restricted or unknown client is only ever matched with an unrestricted proxy")
+			}
+			if strings.Contains(o.desc, "DENIED-ALTHOUGH-ELIGIBLE") || strings.Contains(o.desc, "WRONG-DENIALS") {
+				r.OracleFail("denied-although-eligible-proxy-waiting", line, trunc1k(o.real), "a client is refused only if no compatible proxy is waiting")
 			}
 			continue
 		}
@@ -1052,3 +1189,10 @@ func runBrokerScenarios(t *testing.T, r *vh.Run, prop string) {
 func TestVerifC02(t *testing.T) { runBrokerCore(t, "C02") }
 func TestVerifC03(t *testing.T) { runBrokerCore(t, "C03") }
 func TestVerifC04(t *testing.T) { runBrokerCore(t, "C04") }
+
+func trunc1k(s string) string {
+	if len(s) > 1000 {
+		return s[:1000] + "..."
+	}
+	return s
+}
